@@ -126,7 +126,7 @@ closure("SecondsTimedeltaProvider._make_loader.<locals>.timedelta_loader", "Seco
          "strict-origin": "implies(returned, py(lambda d: type(d) in (int, float, Decimal), data))",
          "type-vs-value": "implies(raised, (type(exc) is TypeLoadError) == py(lambda d: type(d) not in (int, float, Decimal), data))",
          "value": "implies(returned, py(lambda d, r: type(r) is timedelta and abs(r.total_seconds() - float(d)) < 1e-6, data, result))",
-         "accept-finite": "implies(py(lambda d: type(d) in (int, float, Decimal) and abs(d) < 10**9, data), returned)"},
+         "accept-finite": "implies(py(lambda d: type(d) in (int, float, Decimal) and finite_small(d), data), returned)"},
         props=("C02", "C04", "C05", "C06", "C20", "C01", "C07"),
         clause_props={**CP, "accept-finite": ["C02"], "value": ["C02", "C01"]},
         native=lambda mod, label: mod.SecondsTimedeltaProvider()._make_loader())
